@@ -452,8 +452,8 @@ def _clear_caches():
     so that each case starts from the state a fresh process has."""
     import sys
 
-    mods = [m for n, m in sys.modules.items() if n.startswith('AEIC.emissions') and m is not None]
-    if _STATE.get('cache_mods') != len(mods):
+    if _STATE.get('cache_mods') != len(sys.modules):
+        mods = [m for n, m in list(sys.modules.items()) if n.startswith('AEIC.emissions') and m is not None]
         seen, fns = set(), []
         for mod in mods:
             for v in list(vars(mod).values()):
@@ -461,7 +461,7 @@ def _clear_caches():
                 if callable(cc) and id(v) not in seen:
                     seen.add(id(v))
                     fns.append(cc)
-        _STATE['cache_mods'] = len(mods)
+        _STATE['cache_mods'] = len(sys.modules)
         _STATE['cache_fns'] = fns
     for cc in _STATE['cache_fns']:
         try:
@@ -644,14 +644,19 @@ def run_case(case):
 
 
 def replay(case):
-    """Re-execute one recorded case in a fresh process: the case itself, then (for violations found by the
-    order-independence pass) the same observation before and after one sweep of the spine on shared objects."""
+    """Re-execute one recorded case in a fresh process. First cold (exactly what run_case does). If that is
+    clean, the recorded violation depended on state left behind by other evaluations: warm the process up
+    with one sweep of the spine on the shared objects and judge the case again, and compare the bit-exact
+    observation before and after the sweep."""
     from vf.runner import jdump
 
     vs = list(run_case(case)['violations'])
+    if vs:
+        return vs
     first = jdump(observe(case))
     for cfg in SPINE_NAMES:
         observe({'traj': 'T1', 'fuel': 'jetA', 'lto': 'real', 'apu': 'real', 'cls': 'narrow', 'cfg': cfg})
+    vs = list(run_case(case)['violations'])
     second = jdump(observe(case))
     if first != second:
         vs.append(V('order-dependence', f'first={first[:300]} second={second[:300]}'))
